@@ -128,7 +128,11 @@ Calls(o) ==
       \cup (IF k \in {"dense", "sparse"}
             THEN St("contract", {a \in ContractArgs : a.a # a.b /\ ShapeC[a.a + 1] = ShapeC[a.b + 1]}) ELSE {})
       \cup (IF k = "dense" THEN St("collapse", CollapseArgs({"sum", "max", "min"})) ELSE {})
-      \cup (IF k = "sparse" THEN St("collapse", CollapseArgs({"sum"})) ELSE {})
+      \* sparse collapse applies the reducer to the STORED values of a slice (by design); this coincides with the
+      \* reducer over the whole slice for "sum" always, for "max" on non-negative and for "min" on non-positive data
+      \cup (IF k = "sparse" THEN St("collapse", CollapseArgs({"sum"}
+                 \cup (IF \A j \in 1..Len(o.vals) : o.vals[j] >= 0 THEN {"max"} ELSE {})
+                 \cup (IF \A j \in 1..Len(o.vals) : o.vals[j] <= 0 THEN {"min"} ELSE {}))) ELSE {})
       \cup (IF k = "dense" THEN St("scale", ScaleArgs({"array", "dense"})) ELSE {})
       \cup (IF k = "sparse" THEN St("scale", {a \in ScaleArgs({"array", "dense", "sparse"}) :
                                                a.fkind # "array" \/ Len(a.dims) = 1}) ELSE {})
